@@ -160,5 +160,12 @@ func witnessDesigns() []*dg.Design {
 	// error with a custom type
 	w3 := latticeDesign("witness3", []latCombo{{A: latMap, M: latDecl, TM: "LatM"}, {S: latMap, M: latDecl, TM: "LatM"}}, 200)
 	w3.Features = []string{"witness:error_type_differs_between_levels"}
-	return []*dg.Design{w1, w2, w3}
+	// a custom error type with Body(Empty): goa carries left-out attributes for ErrorResult only
+	lost := dg.Obj(dg.Req("name", str), dg.F("code", integer))
+	ml := &dg.Method{Name: "lost", Errors: []dg.ErrorDef{{Name: "conflict", T: &lost}},
+		HTTP: &dg.HTTPMap{Routes: []dg.Route{{Verb: "GET", Path: "/lost"}},
+			Errors: []dg.ErrResponse{{Name: "conflict", R: dg.Response{Status: 409, Body: &dg.BodySpec{Empty: true}}}}}}
+	w4 := &dg.Design{Name: "witness4", Services: []*dg.Service{{Name: "zeta", Methods: []*dg.Method{ml}}},
+		Features: []string{"witness:custom_error_body_empty"}}
+	return []*dg.Design{w1, w2, w3, w4}
 }
